@@ -63,6 +63,20 @@ run, replay = P.run, P.replay
 
 
 # ------------------------------------------------------------------ the public registry, on the real code only
+class _Args:
+    """plain (non-data) mutable arguments handed to the call under test, kept so that aliasing can be checked afterwards"""
+    def __init__(self):
+        self.kept = []
+
+    def keep(self, x):
+        import copy as _c
+        self.kept.append((x, _c.deepcopy(x)))
+        return x
+
+
+ARGS = _Args()
+
+
 def _registry(rng):
     """(name, callable(data) -> result) for every public function taking a data object"""
     import numpy as np, dnplab as dnp, warnings
@@ -92,7 +106,12 @@ def _registry(rng):
         reg("normalize-dim", lambda d, dim: dnp.normalize(d, dim=dim)),
         reg("smooth", lambda d, dim: dnp.smooth(d, dim, 5, 2)),
         reg("smooth-bad", lambda d, dim: dnp.smooth(d, dim, 4, 7)),
-        reg("interp", lambda d, dim: dnp.interp(d, dim, np.linspace(0.0, 1.0, 7))),
+        reg("interp", lambda d, dim: dnp.interp(d, dim, ARGS.keep(np.linspace(0.0, 1.0, 7)))),
+        reg("interp-list", lambda d, dim: dnp.interp(d, dim, ARGS.keep([0.0, 0.25, 0.5, 1.0]))),
+        reg("integrate-regions-kept", lambda d, dim: dnp.integrate(d, dim, ARGS.keep([(0.0, 1.0), (0.5, 9.0)]))),
+        reg("phase_cycle-array", lambda d, dim: dnp.phase_cycle(d, dim, ARGS.keep(np.array([0, 1])))),
+        reg("phase-array-p1", lambda d, dim: dnp.phase(d, dim, 10.0, ARGS.keep(np.linspace(0.0, 5.0, d.shape[d.dims.index(dim)])))),
+        reg("create_complex-kept", lambda d, dim: dnp.create_complex(d, ARGS.keep(np.real(d.values).copy()), ARGS.keep(np.imag(d.values).copy()))),
         reg("interp-bad", lambda d, dim: dnp.interp(d, dim, np.zeros((2, 2)))),
         reg("ndalign", lambda d, dim: dnp.ndalign(d, dim)),
         reg("ndalign-bad", lambda d, dim: dnp.ndalign(d, dim, center=1.0)),
@@ -150,6 +169,7 @@ def registry_oracle(tier, seed):
                               "dnplab_attrs": {"frequency": 4e8}, "proc_attrs": [("step", {"p": [1, 2]})]}
                     d = dnp.DNPData(vals.copy(), list(dims), [c.copy() for c in coords], **kw)
                     before = deep_snap(d)
+                    ARGS.kept = []
                     res, err = None, None
                     with warnings.catch_warnings():
                         warnings.simplefilter("ignore")
@@ -166,6 +186,25 @@ def registry_oracle(tier, seed):
                         key = "C03:argument-modified:%s:%s:%s" % (name, "raise" if err else "return", "+".join(diff))
                         fails.append({"key": key, "clause": key, "ops": [{"function": name, "shape": shape, "dim_pos": k,
                                                                          "complex": cplx, "attrs": with_attrs, "error": err}]})
+                    from oracles import hist_arrays, history_aliases_live, _eq
+                    for x, x0 in ARGS.kept:
+                        if not _eq(x, x0):
+                            key = "C03:argument-modified:%s:plain-argument" % name
+                            fails.append({"key": key, "clause": key, "ops": [{"function": name, "shape": shape, "dim_pos": k}]})
+                        if isinstance(res, dnp.DNPData):
+                            live = [np.asarray(res.values)] + [np.asarray(c) for c in res.coords.coords]
+                            hist = hist_arrays(res)
+                            params = [v for ent in res.proc_attrs for v in (ent[1].values() if isinstance(ent[1], dict) else [])]
+                            if isinstance(x, np.ndarray) and any(np.shares_memory(x, l) for l in live if l.size):
+                                key = "C03:shared-state:%s:argument-array" % name
+                                fails.append({"key": key, "clause": key, "ops": [{"function": name, "shape": shape, "dim_pos": k}]})
+                            if (isinstance(x, np.ndarray) and any(np.shares_memory(x, h) for h in hist if h.size)) or \
+                                    (isinstance(x, (list, dict)) and any(v is x for v in params)):
+                                key = "C03:shared-state:%s:argument-in-history" % name
+                                fails.append({"key": key, "clause": key, "ops": [{"function": name, "shape": shape, "dim_pos": k}]})
+                    if isinstance(res, dnp.DNPData) and history_aliases_live(res):
+                        key = "C03:shared-state:%s:history-aliases-live-array" % name
+                        fails.append({"key": key, "clause": key, "ops": [{"function": name, "shape": shape, "dim_pos": k}]})
                     if isinstance(res, dnp.DNPData):
                         sh = shares_state(res, d)
                         if sh:
